@@ -4,6 +4,8 @@
 use super::*;
 //@include spec/block_on.rs
 use vsupport::block_on;
+//@include spec/utf8.rs
+//@include spec/from_utf8_stub.rs
 use ohkami_lib::{CowSlice, Slice};
 
 fn stub_ts() -> u64 { 0 }
@@ -76,6 +78,6 @@ fn basicauth_body(shape: usize) {
             assert!(res.headers.WWWAuthenticate().map(|v| v.as_bytes()[0] == b'B' && v.as_bytes()[4] == b'c') == Some(true), "BasicAuth: refusal carries a `WWW-Authenticate: Basic ...` challenge");
         }
     }
-    kani::cover!(want || hk != 1 || dl < ul + pl + 1);
+    kani::cover!(want || hk != 1 || dl != ul + pl + 1);
 }
-//@chunks 80 c13_basicauth_contract basicauth_body #[kani::proof] #[kani::unwind(8)] #[kani::stub(crate::util::unix_timestamp, stub_ts)] #[kani::stub(crate::util::base64_decode_utf8, stub_b64_recording)]
+//@chunks 80 c13_basicauth_contract basicauth_body #[kani::proof] #[kani::unwind(16)] #[kani::stub(crate::util::unix_timestamp, stub_ts)] #[kani::stub(crate::util::base64_decode_utf8, stub_b64_recording)] #[kani::stub(std::str::from_utf8, stub_from_utf8)]
